@@ -14,9 +14,9 @@ if ! (go build ./... && go test -vet=off -count=1 ./... >/dev/shm/seed-suite.log
 echo "suite passes with the patch"
 cp $SRC/demo_test.go $W/$DEMODIR/zz_seed_demo_test.go
 go test ${SEED_TEST_FLAGS:-} -vet=off -count=1 -run "$RUN" ./$DEMODIR > /dev/shm/seed-demo-with.log 2>&1; with=$?
-git stash -q -- $(git diff --name-only) 2>/dev/null || git checkout -- .
+git checkout -q -- .   # (no git stash: the stash is shared between worktrees)
 go test ${SEED_TEST_FLAGS:-} -vet=off -count=1 -run "$RUN" ./$DEMODIR > /dev/shm/seed-demo-without.log 2>&1; without=$?
-git stash pop -q 2>/dev/null || git apply $SRC/patch.diff
+git apply $SRC/patch.diff
 echo "demo: with patch exit=$with, without patch exit=$without"
 if [ $with -eq 0 ] || [ $without -ne 0 ]; then echo "RESULT $ID: demonstration not confirmed"; tail -8 /dev/shm/seed-demo-with.log; tail -5 /dev/shm/seed-demo-without.log; fi
 rm -f $W/$DEMODIR/zz_seed_demo_test.go
